@@ -26,7 +26,55 @@ func init() {
 func runC20(c *Ctx) {
 	ruleTaint(c)
 	ruleClassify(c)
+	ruleInfoState(c)
 	ruleArityAll(c, "ARITY")
+}
+
+// C20.INFOSTATE: location information (ipinfo.IPInfo) is held only in per-connection / per-client records that receive it when
+// they are constructed. A field of that type that is overwritten later is state shared between clients (a memo, a "last
+// lookup"): the label of one client then depends on which client came before it, not on its own address class.
+func ruleInfoState(c *Ctx) {
+	p := c.P
+	n := 0
+	for path, pkg := range p.AllPkgs {
+		if pkg.Types == nil || !strings.HasPrefix(path, eng.Mod) || strings.Contains(path, "/ipinfo") {
+			continue
+		}
+		sc := pkg.Types.Scope()
+		for _, name := range sc.Names() {
+			tn, ok := sc.Lookup(name).(*types.TypeName)
+			if !ok {
+				continue
+			}
+			st, ok := tn.Type().Underlying().(*types.Struct)
+			if !ok {
+				continue
+			}
+			T := eng.Short(path + "." + name)
+			for i := 0; i < st.NumFields(); i++ {
+				f := st.Field(i)
+				if !strings.HasSuffix(f.Type().String(), "/ipinfo.IPInfo") {
+					continue
+				}
+				n++
+				var bad *eng.FieldAccess
+				for _, fs := range p.FieldStores(T, f.Name()) {
+					fs := fs
+					if !fs.Fresh && !p.IsTestSupport(fs.Fn) {
+						bad = &fs
+					}
+				}
+				pos := "-"
+				detail := ""
+				if bad != nil {
+					pos = p.IPos(bad.Ins)
+					detail = "location information is overwritten in " + T + "." + f.Name() + " by " + short(bad.Fn) + " after the object was constructed: it is shared, mutable state, so a client's location label can be the one looked up for an earlier client"
+				}
+				c.Check("INFOSTATE", T+"."+f.Name()+":set-only-at-construction", pos, bad == nil, detail)
+			}
+		}
+	}
+	c.Floor("INFOSTATE", "struct fields holding location information", n, 3)
 }
 
 // ---- taint ----
